@@ -544,7 +544,7 @@ def enumerate_k2():
 
 
 def campaign(ctx):
-    n = {"quick": 700, "thorough": 6000}[ctx.tier]
+    n = {"quick": 1800, "thorough": 6000}[ctx.tier]
     g = runner.guarded(run_case)
 
     def rc(ctx_, case):
